@@ -11,7 +11,7 @@ After EVERY operation of a history the monitor is evaluated on the real tree:
                             (also evaluated after a raised exception: "...and leaves the tree well formed")
   <op>.traversals           preorder / postorder / levelorder / leaf / nodes() / internal_nodes()+leaf_nodes() /
                             postorder_edge_iter visit exactly the nodes reachable by an independent BFS, each once
-                            (under a 10 s guard: a cyclic structure makes them run forever)
+                            (under a wall-clock guard: a cyclic structure makes them run forever)
   <op>.leaf_taxa            multiset of leaf taxa = (before) - (taxa of the leaves the request removes) + (taxa added)
   <op>.node_taxa            same over all nodes (used alone when a leaf is legitimately turned into the seed node)
   <op>.bipartitions_fresh   update_bipartitions=True (after the driver made the encoding current with a structure-
@@ -58,6 +58,9 @@ from dendropy.datamodel.treemodel import Node, Tree, Bipartition
 from dendropy.utility.error import SeedNodeDeletionException
 
 MAX_REPORT_PER_MONITOR = 12
+HANG_SECONDS = 3
+HANG_LIMIT = 3      # per worker process and operation: afterwards the operation is reported without being run
+_HANGS = {}
 B2 = (False, True)
 PATS = length_patterns()
 PATS["zeros"] = lambda i, leaf: (0.0 if i % 2 else 1.5)
@@ -591,13 +594,16 @@ def step(t, env, d):
         exp_leaf = _sub(exp_leaf, {grown.taxon.label: 1})
     name = lambda c: "%s.%s" % (P.prefix, c)
     raised = None
+    if _HANGS.get(d["op"], 0) >= HANG_LIMIT:
+        return [(name("terminates"), "not run: this operation already hung %d times in this worker" % HANG_LIMIT)], True
     try:
-        with time_limit(10):
+        with time_limit(HANG_SECONDS):
             with warnings.catch_warnings():
                 warnings.simplefilter("ignore")
                 P.call()
     except Timeout:
-        return [(name("terminates"), "no result after 10 s")], True
+        _HANGS[d["op"]] = _HANGS.get(d["op"], 0) + 1
+        return [(name("terminates"), "no result after %s s" % HANG_SECONDS)], True
     except Exception as ex:
         raised = ex
     if raised is not None:
